@@ -272,35 +272,55 @@ func (w *world) runCheck(ctx context.Context, client bufcheck.Client, c caseRec)
 
 // runCheckViaReader runs the case with the configuration the real reader derives for the second module of a
 // two-module v2 buf.yaml whose top-level section carries the case's settings (paths prefixed with the module directory).
-func (w *world) runCheckViaReader(ctx context.Context, client bufcheck.Client, c caseRec) ([]bufx.Annotation, error) {
+//
+// placement "module": the section is the own section of the second module instead (a section that consists of a single
+// key, such as disallow_comment_ignores, is still a section).
+func (w *world) runCheckViaReader(ctx context.Context, client bufcheck.Client, c caseRec, placement string) ([]bufx.Annotation, error) {
 	parts := strings.SplitN(c.Kind, "-", 2)
 	var sb strings.Builder
 	// the linted module is listed (and sorted) after another one
-	sb.WriteString("version: v2\nmodules:\n  - path: a_other\n  - path: m\n" + parts[0] + ":\n")
+	in := ""
+	if placement == "module" {
+		in = "    "
+		sb.WriteString("version: v2\nmodules:\n  - path: a_other\n  - path: m\n" + in + parts[0] + ":\n")
+	} else {
+		sb.WriteString("version: v2\nmodules:\n  - path: a_other\n  - path: m\n" + parts[0] + ":\n")
+	}
 	list := func(key string, xs []string, prefix string) {
 		if len(xs) == 0 {
 			return
 		}
-		sb.WriteString("  " + key + ":\n")
+		sb.WriteString(in + "  " + key + ":\n")
 		for _, x := range xs {
-			sb.WriteString("    - " + prefix + x + "\n")
+			sb.WriteString(in + "    - " + prefix + x + "\n")
 		}
 	}
 	list("use", c.Use, "")
 	list("except", c.Except, "")
 	list("ignore", c.Ignore, "m/")
 	if len(c.IgnoreOnly) > 0 {
-		sb.WriteString("  ignore_only:\n")
+		sb.WriteString(in + "  ignore_only:\n")
 		for _, k := range bufx.SortedKeys(c.IgnoreOnly) {
-			sb.WriteString("    " + k + ":\n")
+			sb.WriteString(in + "    " + k + ":\n")
 			for _, x := range c.IgnoreOnly[k] {
-				sb.WriteString("      - m/" + x + "\n")
+				sb.WriteString(in + "      - m/" + x + "\n")
 			}
 		}
 	}
 	if parts[0] == "lint" && !c.AllowComments {
-		sb.WriteString("  disallow_comment_ignores: true\n")
+		sb.WriteString(in + "  disallow_comment_ignores: true\n")
 	}
+	if strings.HasSuffix(sb.String(), parts[0]+":\n") {
+		// nothing to say: an empty section
+		return w.runCheckViaReaderText(ctx, client, c, strings.TrimSuffix(sb.String(), in+parts[0]+":\n"))
+	}
+	return w.runCheckViaReaderText(ctx, client, c, sb.String())
+}
+
+func (w *world) runCheckViaReaderText(ctx context.Context, client bufcheck.Client, c caseRec, text string) ([]bufx.Annotation, error) {
+	parts := strings.SplitN(c.Kind, "-", 2)
+	var sb strings.Builder
+	sb.WriteString(text)
 	f, err := bufconfig.ReadBufYAMLFile(strings.NewReader(sb.String()), "buf.yaml")
 	if err != nil {
 		return nil, err
@@ -461,10 +481,13 @@ func runReplay(in []byte) (*reg.Result, error) {
 				}
 				// the same configuration written as the shared top-level section of a two-module v2 buf.yaml and read by the
 				// real reader must give the same result for the second module
-				if strings.HasSuffix(c.Kind, "-v2") {
-					got2, rerr := w.runCheckViaReader(ctx, client, c)
+				for _, placement := range []string{"top", "module"} {
+					if !strings.HasSuffix(c.Kind, "-v2") {
+						break
+					}
+					got2, rerr := w.runCheckViaReader(ctx, client, c, placement)
 					if rerr != nil {
-						res.Violate("reader-rejected/"+c.Kind, caseInfo, "the configuration is accepted by the constructor but not as a top-level v2 section: %v", rerr)
+						res.Violate("reader-rejected/"+placement+"/"+c.Kind, caseInfo, "the configuration is accepted by the constructor but not as a %s-level v2 section: %v", placement, rerr)
 					} else {
 						set2 := map[string]bool{}
 						for _, a := range got2 {
@@ -483,7 +506,7 @@ func runReplay(in []byte) (*reg.Result, error) {
 						}
 						sort.Strings(diff)
 						if len(diff) > 0 {
-							res.Violate("reader-differs/"+c.Kind+"/"+strings.Split(diff[0], ":")[4], caseInfo, "the shared top-level section of a v2 buf.yaml gives the second module a different result (%d): %v", len(diff), diff[:min(len(diff), 4)])
+							res.Violate("reader-differs/"+placement+"/"+c.Kind+"/"+strings.Split(diff[0], ":")[4], caseInfo, "the %s-level section of a v2 buf.yaml gives the second module a different result (%d): %v", placement, len(diff), diff[:min(len(diff), 4)])
 						}
 					}
 				}
